@@ -1544,6 +1544,13 @@ class CppEmitter(Visitor):
         # a pass-through; per-op widening dispatch handles the body.
         if rctx is None or rctx is REAL:
             # No op uses this scope, or the scope is REAL (no fenv mode).
+            if rctx is REAL and self._current_rm is RM.RTN:
+                # ... except that an exact sum of terms that cancel is `+0`, and
+                # the machine gives `-0` while the enclosing scope's
+                # round-toward-negative mode is live
+                with self._fenv_scope(RM.RNE):
+                    self._visit_block(stmt.body, ctx)
+                return
             self._visit_block(stmt.body, ctx)
             return
         storage = self._validate_context_rm(rctx, at=stmt)
